@@ -65,14 +65,16 @@ def decOpts (j : Json) : Opts :=
     invalidItems := (decPolicy (fld j "invalid_items")).getD .throw,
     invalidKeys := (decPolicy (fld j "invalid_keys")).getD .throw,
     invalidValues := (decPolicy (fld j "invalid_values")).getD .throw,
-    dfs := bool! (fld j "dfs") }
+    dfs := bool! (fld j "dfs"),
+    maxParams := optNat (fld j "max_params"), minParams := optNat (fld j "min_params") }
 
 def decField (j : Json) : FieldDecl :=
   { name := str! (fld j "name"),
     ty := if isNull (fld j "ty") then none else some (decTy (fld j "ty")),
     required := bool! (fld j "required"),
     default := (obj? j "default").map decVal,
-    onError := decPolicy (fld j "on_error") }
+    onError := decPolicy (fld j "on_error"),
+    deps := (arr! (fld j "deps")).map str! }
 
 def decMode (j : Json) : Mode :=
   match arr! j with
@@ -83,6 +85,7 @@ def kindName : Kind → String
   | .parse => "ParseError" | .absence => "AbsenceError" | .exceed => "ExceedError"
   | .tupleExceed => "TupleExceedError" | .constraint => "ConstraintError" | .oneOf => "OneOfViolatedError"
   | .negate => "NegateViolatedError" | .collected => "CollectedParseError" | .other => "other"
+  | .paramsExceed => "ParamsExceedError" | .paramsLack => "ParamsLackError" | .depsAbsence => "DependenciesAbsenceError"
 
 def encErr (e : Err) : Json :=
   Json.arr #[Json.str (kindName e.kind), match e.item with | some i => Json.str i | none => Json.null]
